@@ -143,7 +143,14 @@ def extra_obligations(repo):
                  z3.BoolVal(got == SORTED_SRC), line=fn.lineno,
                  detail='body of _sorted_errors is `%s` (found: `%s`)' % (SORTED_SRC, got))
   o.owner = 'ErrorLog._sorted_errors'
-  return [o]
+  from contracts import c04_frames
+  frames, used = c04_frames.obligations(repo)
+  global FRAME_ASSUMPTIONS
+  FRAME_ASSUMPTIONS = ['frame-scan review (%s::%s, %s over `%s`): %s' % (r['file'], r['func'], r['kind'], r['expr'], r['why']) for r in used]
+  return [o] + frames
+
+
+FRAME_ASSUMPTIONS = []
 
 
 SURROUND = ['the whole analysis pipeline as a function of (source, options): vm.py, output.py, printer, optimizer, pickling, loader caches '
@@ -151,6 +158,11 @@ SURROUND = ['the whole analysis pipeline as a function of (source, options): vm.
             'errors._compare_traceback_strings, Error.get_unique_representation / _position (string formatting)',
             'ErrorLog._add / Director.filter_error, every call site that creates errors (e.g. overriding_checks.py)']
 NATIVE_IN_QUICK = True
+ASSUMPTIONS = [
+    'frame scan (contracts/c04_frames.py): order leaks are recognised syntactically only -- a set that reaches an order-sensitive consumer '
+    'through an attribute, a parameter, a return value or a helper call is not seen; process-wide memoisation is recognised by decorator name '
+    '(functools.lru_cache / functools.cache) only',
+]
 MUTANTS = [
     dict(name='sort_by_line_only', file=ERR_PY, old='key=lambda x: (x.filename or "", x.line)', new='key=lambda x: x.line'),
     dict(name='no_sort', file=ERR_PY, old='    for error in self._sorted_errors():\n      error_without_traceback', new='    for error in self._errors:\n      error_without_traceback'),
